@@ -74,6 +74,11 @@ def run_case(cs):
         if r.internal or r.exit != 0:
             cs.skip("init-create-failed")
             return
+    if "skipdir/H" in roots and rng.random() < 0.6:
+        # the pattern is stored by an earlier run; a later `create -sf` into the nested history does not apply it
+        r = drive.run("create", [root, "-h", "md5", "-i", "skipdir"])
+        steps.append(f"store pattern skipdir => {r.exit}")
+        cs.count("stored_pattern_covers_nested_history")
     hists = world.find_histories(root)
     # optional edits so that some runs end with 10/11 (generations are written regardless)
     if rng.random() < 0.3:
@@ -102,6 +107,9 @@ def run_case(cs):
             cs.skip("no-files")
             return
         sel = rng.sample(files, min(len(files), rng.choice([1, 1, 2, 3])))
+        under_skip = [f for f in files if f.startswith("skipdir/H/")]
+        if under_skip and rng.random() < 0.5:
+            sel = [rng.choice(under_skip)]
         for f in sel:
             extra += ["-sf", os.path.join(root, f)]
         expected_touched = set()
